@@ -10,6 +10,37 @@ from collections import defaultdict, deque
 
 from .build import AnalysisBroken
 
+
+def table_locks(P, fn, o, locks=None):
+    """operand is table[i] with table a constant array of lock addresses and i the counter of a loop over the whole table -> lock names in table order"""
+    from . import rules
+    i = fn.resolve(rules.strip_casts(fn, o)) if o.get("k") == "inst" else None
+    if i is None or i.op != "load":
+        return None
+    g = fn.resolve(i["ptr"])
+    if g is None or g.op != "getelementptr" or g["base"].get("k") != "global" or len(g["idx"]) != 1:
+        return None
+    gd = P.globals.get(g["base"]["name"])
+    if not gd or not gd.get("const") or not isinstance(gd.get("init"), list) or not gd["init"]:
+        return None
+    names = [x.get("g") for x in gd["init"] if isinstance(x, dict) and x.get("off", 0) == 0 and x.get("g")]
+    if len(names) != len(gd["init"]) or (locks is not None and any(n not in locks for n in names)):
+        return None
+    # the subscript is i or i - 1 of a counter that runs over 0..N
+    iv = fn.resolve(rules.strip_casts(fn, g["idx"][0]["v"]))
+    if iv is not None and iv.op in ("add", "sub") and rules.const_of(fn, iv["b"]) in (1, -1):
+        iv = fn.resolve(rules.strip_casts(fn, iv["a"]))
+    if iv is None or iv.op != "load" or iv["ptr"].get("k") != "inst":
+        return None
+    cell = iv["ptr"]["id"]
+    sts = [s for s in fn.all_insts() if s.op == "store" and s["ptr"].get("k") == "inst" and s["ptr"]["id"] == cell]
+    n = len(names)
+    init = [s for s in sts if rules.const_of(fn, s["val"]) in (0, n)]
+    cmpd = any(c.op == "icmp" and rules.const_of(fn, c["b"]) in (0, n) and (rules.load_source(fn, c["a"]) or (None, None))[1] == cell for c in fn.all_insts())
+    if len(sts) != 2 or len(init) != 1 or not cmpd:
+        return None
+    return names
+
 ACQ = {
     "pthread_mutex_lock": "M",
     "pthread_rwlock_rdlock": "R",
@@ -339,7 +370,15 @@ class LockEngine:
                 if term.op == "unreachable":
                     continue
                 succs = None
-                if term.op == "br" and "cond" in term.d:
+                tl = self._table_loops(fn).get(bid)
+                if tl is not None and term.op == "br" and "cond" in term.d:
+                    # head of a counted loop over a whole lock table (it runs at least once): entered while the table's locks are not all taken (all
+                    # released), left once they are
+                    acq, names, inside, outside = tl
+                    held = [n for n in names if ls_get(ls, n) is not None]
+                    enter = (len(held) < len(names)) if acq else bool(held)
+                    succs = [(inside if enter else outside, ft2)]
+                if succs is None and term.op == "br" and "cond" in term.d:
                     v = self.ev(fn, term["cond"], facts, ctx.args)
                     if v is not None:
                         succs = [(term["t"] if v & 1 else term["f"], ft2)]
@@ -357,6 +396,29 @@ class LockEngine:
                     if st not in seen:
                         seen.add(st)
                         work.append(st)
+
+    def _table_loops(self, fn):
+        """loop head block id -> (acquires?, lock names, successor inside the loop, successor outside) for loops whose body locks / unlocks table[i]"""
+        cache = self.__dict__.setdefault("_tl_cache", {})
+        if fn.name in cache:
+            return cache[fn.name]
+        out = {}
+        for c in fn.calls():
+            if c.callee in ACQ or c.callee in REL:
+                tb = table_locks(self.prog, fn, c.args[0], self.locks) if c.args and c.args[0].get("k") == "inst" else None
+                if not tb:
+                    continue
+                heads = [h for h, body in fn.loops().items() if c.bb.id in body]
+                if not heads:
+                    continue
+                h = min(heads, key=lambda h_: len(fn.loops()[h_]))
+                body = fn.loops()[h]
+                t = fn.bmap[h].term
+                if t.op == "br" and "cond" in t.d and (t["t"] in body) != (t["f"] in body):
+                    inside, outside = (t["t"], t["f"]) if t["t"] in body else (t["f"], t["t"])
+                    out[h] = (c.callee in ACQ, tb, inside, outside)
+        cache[fn.name] = out
+        return out
 
     def _record(self, ctx, inst, ls):
         ctx.inst_states.setdefault(inst.id, set()).add(ls)
@@ -383,6 +445,29 @@ class LockEngine:
         callee = inst.callee
         if callee in ACQ or callee in REL or callee in TRY:
             lock = self._resolve_lock(fn, inst.args[0], ctx.args)
+            if lock is None and callee not in TRY:
+                tb = table_locks(self.prog, fn, inst.args[0], self.locks)
+                if tb:
+                    # `for (i = 0; i < N; i++) pthread_mutex_lock(table[i]);` over a constant table of lock addresses: the loop as a whole takes
+                    # (releases) every lock of the table, in table order; modelled at the call, idempotently for the later iterations
+                    self._record(ctx, inst, ls)
+                    if callee in ACQ:
+                        mode = ACQ[callee]
+                        self.acq_sites.add((fn.name, inst.id))
+                        for lock in tb:
+                            if ls_get(ls, lock) is not None:
+                                continue
+                            self.acq_events += 1
+                            for (l, m, c) in ls:
+                                if l != lock:
+                                    self.edges[(l, m, lock, mode)].append((ctx.key, inst))
+                            ctx.acquires.add((lock, mode))
+                            ls = ls_add(ls, lock, mode)
+                        return [(ls, facts)]
+                    for lock in tb:
+                        if ls_get(ls, lock) is not None:
+                            ls = ls_remove(ls, lock)
+                    return [(ls, facts)]
             if lock is None:
                 raise AnalysisBroken("lock operation on an object that is not a named lock global (directly or through a parameter) at %s" % inst.loc())
             if callee in TRY:
